@@ -12,7 +12,7 @@ ALL = [f"C{i:02d}" for i in range(1, 20)]
 CHECKS = {
  "C17": ("L2 network simulation", "exploration",
    "The real client is brought into one of 23 states (idle, k-th headers / cfheaders message of the sync, parked at each of the 7 block-manager pause points incl. inside a real reorganisation, GetBlock/GetCFilter pending at silent peers, a query storm, rescan in catch-up / retry / current, a running UTXO batch, broadcast and rebroadcast in flight, blocked subscription readers, all peers unresponsive / never reading / gone) and Stop is called at a seed-chosen instant; Stop must return, every in-flight public call must return with an error or a correct result, calls made after Stop must fail promptly, and the data directory must reopen with a valid block chain, filter tip <= block tip, ground-truth filter headers, and a second client on it must sync.",
-   "'Never returns' verdicts need identical goroutine dumps over 36 s with no network event (else inconclusive); Stop latency is evidence only.",
+   "'Never returns' verdicts need identical goroutine dumps over 36 s with no network event, or (partial deadlock: Stop stuck in one subsystem while later ones still run) Stop and every goroutine of the subsystem it waits for parked in identical frames over a further 150 s with the Go runtime reporting each blocked for >= 2 minutes; else inconclusive. Stop latency is evidence only. Two fixed scenarios stop the client inside a multi-worker checkpointed filter-header round (old genesis forces that path).",
    "runtime monitoring: Stop/blocked-caller return oracle with goroutine-dump deadlock argument + reopen oracle, over pause-point-steered states", "5/C17"),
 
  "C05": ("L2 network simulation", "exploration",
@@ -30,12 +30,12 @@ CHECKS = {
    "Go race detector (-race) over race-instrumented simulation and component workloads, log parsing and dedup", "5/C18"),
 
  "C04": ("L2 network simulation", "exploration",
-   "The complete real ChainService (connmgr, btcd peers, block manager, work manager, stores on disk) runs against scripted wire peers: one honest peer plus stale / lighter-fork / invalid-header / filter-liar / silent / garbage / flapping / no-CF / no-witness / slow peers in random or forced connection order; the honest chain keeps growing and reorganises. SAFETY is checked at every 3 ms sample (reported best block is on a fully valid generated chain), BOUNDED PROGRESS per phase (a miss is a violation only if the client's state was stable for the last third of a deadline derived from the protocol timers, else inconclusive), and the stores are re-validated at the end.",
-   "Schedule-dependent (which peer becomes sync peer); deadlines are derived from btcd's stall timeout and the worker timeouts; one child process per scenario. one child process per scenario.",
+   "The complete real ChainService (connmgr, btcd peers, block manager, work manager, stores on disk) runs against scripted wire peers: one honest peer plus stale / lighter-fork / invalid-header / filter-liar / silent / garbage / flapping / no-CF / no-witness / slow peers in random or forced connection order; the honest chain keeps growing and reorganises. SAFETY is checked at every 3 ms sample (reported best block is on a fully valid generated chain), BOUNDED PROGRESS per phase (a miss is a violation only if the client's state was stable for the last third of a deadline derived from the protocol timers, else inconclusive), and the stores are re-validated at the end; every second scenario then restarts the client and lets the other peers push their chains at it while the honest chain rests (stability).",
+   "Schedule-dependent (which peer becomes sync peer); deadlines are derived from btcd's stall timeout and the worker timeouts; one child process per scenario. Two listed findings, each recognised from observations and reproduced by a fixed scenario or named seeds: a lone filter-header liar is believed (c04/lone-liar-believed/*), a fork deeper than one headers message is never left (c04/fork-deeper-than-one-headers-message).",
    "runtime monitoring: sampled public-API safety oracle + bounded-progress oracle over a scripted hostile network", "5/C04"),
  "C08": ("crash runner", "fault_enumeration",
-   "Seeded scripts of appends / filter batches / rollbacks / reorganisation composites run on the real stores; EVERY crash point of every primitive (before/after each flat-file write, five torn lengths inside each write, after each truncate, after each index commit) yields a crash image that is opened like a restarting client and must open, hold exactly the before- or after-state in each store, have whole-record files agreeing with the tips, consistent by-hash lookups, filter tip <= block tip, and accept appends at the right heights. A sample of the same points is re-done with a real SIGKILL of a child process; the thorough tier adds SIGKILLs at random instants.",
-   "Process-death model (completed syscalls persist; bbolt commit atomic); power-loss reordering out of reach; header import and store creation are not in the scripts.",
+   "Seeded scripts of appends / filter batches / rollbacks / reorganisation composites run on the real stores; EVERY crash point of every primitive (before/after each flat-file write, five torn lengths inside each write, after each truncate, after each index commit) yields a crash image that is opened like a restarting client and must open, hold exactly the before- or after-state in each store, have whole-record files agreeing with the tips, consistent by-hash lookups, filter tip <= block tip, and accept appends at the right heights. A sample of the same points is re-done with a real SIGKILL of a child process; the thorough tier adds SIGKILLs at random instants. IMPORT family: the real chainimport.Import runs on pre-filled real stores (block store ahead of the filter store by 0-5) over generated PoW-valid files with every batch class; every crash point during Import yields an image that must open, hold prior content plus a file prefix ending at a durable step, and the SAME import re-run on it must succeed and give exactly the complete final state. On every image of both families the real block manager is constructed on the reopened stores and must take one valid next header to tip+1.",
+   "Process-death model (completed syscalls persist; bbolt commit atomic); power-loss reordering out of reach; store creation is not in the scripts; the one-header restart on the crash state itself is done on one import image in four.",
    "runtime monitoring: exhaustive crash-point enumeration with crash images / real SIGKILL + recovery oracle", "5/C08"),
 
  "C07": ("headerfs component driver", "fault_enumeration",
@@ -44,11 +44,11 @@ CHECKS = {
    "runtime monitoring: reference-model comparison of every read after every operation + exhaustive single-fault injection at the File/DB boundary", "5/C07"),
  "C09": ("rescan component driver", "exploration",
    "The real NewRescan runs over a harness ChainSource backed by a generated block tree and a real blockntfns.SubscriptionManager; chain growth / reorganisations are injected at every phase (before start, mid catch-up via gated ChainSource calls, while blocks wait for retry, when current), with scripted filter/block fetch failures and Update/Rewind at random moments; one ordered callback log is checked by a walk oracle (each connect is the child of the current block, each disconnect names it) and a relevant-transaction oracle (delivered set == txs paying then-watched scripts / spending then-watched outpoints).",
-   "Component level (ChainSource boundary); an update concurrent with a callback keeps both watch states acceptable; rescans that end with an error are judged only on callbacks already delivered.",
+   "Two parts: component level (ChainSource boundary) and a network part in which the real NewRescan runs on the complete client (RescanChainSource) against wire peers with growth, reorganisations of depth 1-6 revealed freely or while the rescan goroutine is parked inside a callback, dropped filter/block requests, Update/Rewind; same walk and relevant-transaction oracles. An update concurrent with a callback keeps both watch states acceptable; rescans that end with an error are judged only on callbacks already delivered.",
    "runtime monitoring: ordered callback log vs chain-walk and relevant-tx reference model, with gate-based schedule control", "5/C09"),
  "C10": ("utxo scanner component driver", "exploration",
    "The real UtxoScanner (wired like production through the verif export) runs over a gated ChainSource: requests and new blocks arrive at chosen points of a running batch, fetches fail at chosen calls, Stop at random points; every request is read by two goroutines; answers are compared with a literal scan of the served chain for some tip between enqueue and delivery; 'no caller left waiting' is decided in callback counts and goroutine dumps, not seconds.",
-   "Double-spend material added to served blocks is not consensus-valid (needed to make 'earliest spend' observable); start above tip and out-of-range index mean 'empty report'.",
+   "Two parts: component level and a network part in which ChainService.GetUtxo is called concurrently in waves on the complete client (hand-built tail/growth blocks with second spends, stalled batches joined by later requests during growth, blocks withheld by every peer, Stop mid-batch); each answer must be acceptable for some tip between the client's own BestBlock before the call and after its return. Double-spend material added to served blocks is not consensus-valid (needed to make 'earliest spend' observable); start above tip and out-of-range index mean 'empty report'.",
    "runtime monitoring: per-request result vs reference scan, exactly-once and no-lost-request monitors with gate-controlled schedules", "5/C10"),
  "C11": ("blockntfns component driver", "exploration",
    "A real SubscriptionManager over a harness NotificationSource with an unbuffered channel; events carry unique ids; the harness records one serialised order of hand-overs and backlog calls (the registration point); each subscriber's stream must be a prefix of backlog ++ later events (full when not cancelled), channels closed after Cancel/Stop, stalled subscribers do not delay others; general schedules plus a stop-storm family aimed at the shutdown race.",
@@ -68,7 +68,7 @@ CHECKS = {
    "runtime monitoring: full store read-back vs file contents + reference header validator, with injected write failures", "5/C14"),
  "C15": ("pushtx component driver", "exploration",
    "The real Broadcaster with a gated Broadcast callback and an unbuffered block-event channel; real tx DAGs (chains, diamonds, fan-in/out) with scripted per-tx outcomes; one serialised history of calls, hand-overs and callback invocations; rounds identified per rebroadcast goroutine; rules: membership, parents before children, nothing after confirmation / rejection, completeness after provably idle triggers, one round at a time, and Broadcast/MarkAsConfirmed/Stop return in every schedule (incl. after Stop).",
-   "The sendTransaction verdict rule (peer replies) needs the network simulation and is not covered by this component check.",
+   "Two parts: the component part (Broadcaster) and a network part in which ChainService.SendTransaction runs on the complete client against 2-6 wire peers whose reaction to the inv is scripted per (peer, tx) (request+accept, request+reject with 13 code/reason classes, reject without requesting, silence, double request, late reject, reject for another hash, disconnect): an error is allowed only if every replying peer rejected or the invalid share reaches the threshold; accepted and mempool-duplicate txs must be re-announced to every connected peer after later blocks, rejected ones never. Timestamps only classify a reject as clearly inside / clearly outside the reject window (in between: inconclusive).",
    "runtime monitoring: serialised call/callback history vs rebroadcast reference rules; blocked-forever decided by goroutine dumps", "5/C15"),
  "C16": ("lru component driver", "exploration",
    "(a) sequential random histories vs a reference LRU with values whose Size() errors; (b) EXHAUSTIVE enumeration of every release order of the verif yield points for every pair (and selected triples) of operations after random prefixes, each schedule checked for linearizability (own search cross-checked by porcupine) and quiescent invariants; (c) free-running stress windows checked by porcupine plus a walk hammer.",
@@ -88,7 +88,7 @@ CHECKS = {
    "runtime monitoring: ground-truth comparison of committed filter headers + ban log, with pause-point fault injection", "5/C03"),
  "C19": ("L1 block-manager driver", "exploration",
    "The block manager's own notification channel is drained while each handler call runs; per step the events are compared with the store diff (disconnects = removed headers highest-first with header/height/new tip; connects = newly committed filter headers in order, after commitment), a model subscriber replays them and must end with the committed chain, and NotificationsSinceHeight is probed at six heights after every step.",
-   "Events are observed below the subscription manager (C11 covers the manager). Store reads happen right after an event's receipt; only facts the same handler cannot undo are asserted.",
+   "Two parts: below the subscription manager (L1) and real subscriptions on the complete client (L2): subscribers from drawn heights, plus joiners subscribing from height 1 every few ms WHILE the client adopts a growth or reorganisation step, replay backlog + events and must hold exactly the committed chain at every quiescent point. Store reads happen right after an event's receipt; only facts the same handler cannot undo are asserted; a header of the handled message that was stored and rolled back within one step may be announced as disconnected.",
    "runtime monitoring: event-log vs store-diff oracle with replay model and backlog probes", "5/C19"),
 }
 
@@ -121,7 +121,7 @@ def main():
         "engines": [
             {"name": "L1 block-manager driver", "path": "harness/internal/l1", "serves_properties": ["C01", "C02", "C03", "C19"],
              "kind_free_text": "real blockManager + real headerfs stores, scripted network, synchronous message-at-a-time driving, store read-back after every step"},
-            {"name": "L2 network simulation", "path": "harness/internal/l2", "serves_properties": ["C03", "C04", "C05", "C06", "C13", "C17", "C18"],
+            {"name": "L2 network simulation", "path": "harness/internal/l2", "serves_properties": ["C03", "C04", "C05", "C06", "C09", "C10", "C13", "C15", "C17", "C18", "C19"],
              "kind_free_text": "the complete real ChainService through its public API against scripted wire peers reached through Config.Dialer; one child process per scenario"},
             {"name": "crash runner", "path": "harness/internal/c08", "serves_properties": ["C08"],
              "kind_free_text": "crash images at every File/DB boundary point and real SIGKILL of child processes, recovery oracle on reopen"},
